@@ -529,18 +529,190 @@ impl Family for MidSizes {
     }
 }
 
+/// Large messages in context: the row of >= 1 MiB / around k*(2^24-1) bytes is not the first thing
+/// of its response and not the last thing on its connection. Every combination of what precedes it
+/// in its resultset (nothing, 2 or 5 short rows, a 5000-byte row and a short one), how the response
+/// ends (EOF, a trailing completion behind finish_one, an error, a second resultset), and what the
+/// next command is answered with (PING's OK, an OK from the shim, a short resultset, an ERR).
+/// Oracle: framing of every packet, the packetisation rule for *every* message of the stream, a
+/// strict decode of the whole conversation, every value as written.
+struct LargeInContext {
+    bigs: Vec<(bool, usize)>, // (binary, message bytes)
+}
+const PRE: [&str; 4] = ["nothing before it", "2 short rows before it", "5 short rows before it", "a 5000-byte row and a short row before it"];
+const ENDING: [&str; 4] = ["finish", "finish_one + completed(0,0)", "finish_error", "finish_one + a second short resultset"];
+const NEXT: [&str; 4] = ["PING", "query -> completed(0,0)", "query -> one short row", "query -> ERR"];
+impl LargeInContext {
+    fn case(&self, idx: u64) -> (usize, usize, usize, usize) {
+        let d = digits(idx, &[self.bigs.len() as u64, 4, 4, 4]);
+        (d[0] as usize, d[1] as usize, d[2] as usize, d[3] as usize)
+    }
+}
+impl Family for LargeInContext {
+    fn name(&self) -> String {
+        "large-messages-in-context".into()
+    }
+    fn len(&self) -> u64 {
+        self.bigs.len() as u64 * 64
+    }
+    fn max_threads(&self) -> Option<usize> {
+        Some(8)
+    }
+    fn run(&self, idx: u64, st: &mut Stats) -> Result<(), Violation> {
+        let (bi, pre, ending, next) = self.case(idx);
+        let (bin, total) = self.bigs[bi];
+        st.nontrivial += 1;
+        st.bump("large_in_context");
+        let label = format!("{} row message of {} bytes, {}, response ended by {}, then {}", if bin { "binary" } else { "text" }, total, PRE[pre], ENDING[ending], NEXT[next]);
+        let cols = Arc::new(vec![col("c0", ColumnType::MYSQL_TYPE_BLOB, ColumnFlags::empty())]);
+        // binary row: header byte + one bitmap byte + the length-encoded blob
+        let data_len = cell_for_total(if bin { total - 2 } else { total }).expect("sizes are chosen to be reachable");
+        let short = |i: usize| vec![b'a' + (i % 26) as u8; 1 + i % 3];
+        let mut want_rows: Vec<Vec<u8>> = Vec::new();
+        let mut p = vec![WOp::Start(cols.clone())];
+        let pre_rows: Vec<Vec<u8>> = match pre {
+            0 => vec![],
+            1 => (0..2).map(short).collect(),
+            2 => (0..5).map(short).collect(),
+            _ => vec![pattern_bytes(5000, 3), short(1)],
+        };
+        for (i, r) in pre_rows.into_iter().enumerate() {
+            if i % 2 == 0 {
+                p.push(WOp::WriteRow(vec![Val::Bytes(r.clone())]));
+            } else {
+                p.push(WOp::WriteCol(Val::Bytes(r.clone())));
+                p.push(WOp::EndRow);
+            }
+            want_rows.push(r);
+        }
+        let big = pattern_bytes(data_len, 1);
+        p.push(WOp::WriteCol(Val::Bytes(big.clone())));
+        p.push(WOp::EndRow);
+        want_rows.push(big);
+        p.push(WOp::WriteRow(vec![Val::Bytes(short(7))]));
+        want_rows.push(short(7));
+        match ending {
+            0 => p.push(WOp::Finish),
+            1 => {
+                p.push(WOp::FinishOne);
+                p.push(WOp::Completed(0, 0));
+            }
+            2 => p.push(WOp::FinishError(ErrorKind::ER_NO, b"x".to_vec())),
+            _ => {
+                p.push(WOp::FinishOne);
+                p.push(WOp::Start(cols.clone()));
+                p.push(WOp::WriteRow(vec![Val::Bytes(short(9))]));
+                p.push(WOp::Finish);
+            }
+        }
+        let first = Arc::new(p);
+        let second: Arc<Vec<WOp>> = Arc::new(match next {
+            1 => vec![WOp::Completed(0, 0)],
+            2 => vec![WOp::Start(cols.clone()), WOp::WriteRow(vec![Val::Bytes(short(4))]), WOp::Finish],
+            _ => vec![WOp::Error(ErrorKind::ER_NO, b"x".to_vec())],
+        });
+        let mut cmds = vec![ClientCmd::new(with_byte(COM_STMT_PREPARE, b"id=1 p=0"))];
+        cmds.push(if bin { ClientCmd::new(cmd_execute(1, 0, 1, &[])) } else { q(b"big") });
+        cmds.push(if next == 0 { ping() } else { q(b"next") });
+        cmds.push(ping());
+        let conv = Conv::new(cmds);
+        let s = conv.stream();
+        let stream = Arc::new(s.bytes);
+        let mut sim = sim_for(&stream, vec![]);
+        sim.log_ops = false;
+        let mut k = 0usize;
+        let behave = Box::new(move |_: usize, cb: &Cb| match cb {
+            Cb::Prepare(_) => Behavior::PrepReply { id: 1, params: param_cols(0), cols: param_cols(0) },
+            Cb::Query(_) | Cb::Execute { .. } => {
+                k += 1;
+                Behavior::Prog(if k == 1 { first.clone() } else { second.clone() })
+            }
+            _ => Behavior::Silent,
+        });
+        let o = run_conn(sim, ConnCfg::new(behave));
+        st.transitions += o.sim.n_writes as u64;
+        if let ConnResult::Panic(l, m) = &o.res {
+            return Err(Violation::new(panic_key(l, m), format!("{}: run_on panicked at {}: {}", label, l, m)));
+        }
+        if let Some(bad) = o.calls.iter().find(|x| x.res.is_err()) {
+            return Err(Violation::new("write-refused", format!("{}: writer call {} returned {:?}", label, bad.op, bad.res)));
+        }
+        if !o.res.is_ok() {
+            return Err(Violation::new("result-not-ok", format!("{}: run_on returned {}", label, o.res.short())));
+        }
+        let out = &o.sim.out;
+        let pkts = split_packets(out).map_err(|e| Violation::new("ill-framed", format!("{}: {}", label, e)))?;
+        let msgs = reassemble(out, &pkts).map_err(|e| Violation::new("no-closing-packet", format!("{}: {}", label, e)))?;
+        for m in &msgs {
+            let want = m.data.len() / MAXP + 1;
+            if m.n_pkts != want {
+                return Err(Violation::new("packet-count", format!("{}: a message of {} bytes was sent in {} packets, the protocol needs {}", label, m.data.len(), m.n_pkts, want)));
+            }
+        }
+        if !msgs.iter().any(|m| m.data.len() == total) {
+            return Err(Violation::new("message-not-reassembled", format!("{}: no message of {} bytes; messages above 1000 bytes: {:?}", label, total, msgs.iter().map(|m| m.data.len()).filter(|l| *l > 1000).collect::<Vec<_>>())));
+        }
+        if total >= MAXP {
+            st.bump("multi_packet_messages");
+        }
+        let d = decode_all(out, &conv, &s.last_seq, conv.cmds.len(), false).map_err(|e| Violation::new("reply-decode", format!("{}: {}", label, e)))?;
+        let cell = |b: &Vec<u8>| if bin { Cell::Bin(BinVal::Bytes(b.clone())) } else { Cell::Text(b.clone()) };
+        let r = &d.replies[1];
+        let first_ok = match r.first() {
+            Some(Unit::ResultSet { rows, end, .. }) => end.is_err() == (ending == 2) && rows.len() == want_rows.len() && rows.iter().zip(want_rows.iter()).all(|(g, w)| g[0] == cell(w)),
+            _ => false,
+        };
+        if !first_ok {
+            return Err(Violation::new("value-differs", format!("{}: the resultset holding the large row arrives changed ({} unit(s))", label, r.len())));
+        }
+        let rest_ok = match (ending, &r[1..]) {
+            (0, []) | (2, []) => true,
+            (1, [Unit::Ok { rows: 0, id: 0, .. }]) => true,
+            (3, [Unit::ResultSet { rows, end: Ok(_), .. }]) => rows.len() == 1 && rows[0][0] == cell(&short(9)),
+            _ => false,
+        };
+        if !rest_ok {
+            return Err(Violation::new("response-end-differs", format!("{}: what follows the large resultset arrives as {:?}", label, r[1..].iter().map(|u| format!("{:?}", u).chars().take(60).collect::<String>()).collect::<Vec<_>>())));
+        }
+        let n = &d.replies[2];
+        let next_ok = match (next, &n[..]) {
+            (0, [Unit::Ok { .. }]) => true,
+            (1, [Unit::Ok { rows: 0, id: 0, .. }]) => true,
+            (2, [Unit::ResultSet { rows, end: Ok(_), .. }]) => rows.len() == 1 && rows[0][0] == Cell::Text(short(4)),
+            (3, [Unit::Err(e)]) => e.msg == b"x",
+            _ => false,
+        };
+        if !next_ok {
+            return Err(Violation::new("next-reply-differs", format!("{}: the reply to the next command arrives as {:?}", label, n.iter().map(|u| format!("{:?}", u).chars().take(60).collect::<String>()).collect::<Vec<_>>())));
+        }
+        Ok(())
+    }
+    fn describe(&self, idx: u64) -> J {
+        let (bi, pre, ending, next) = self.case(idx);
+        json!({"binary": self.bigs[bi].0, "message_bytes": self.bigs[bi].1, "before": PRE[pre], "response_ends_with": ENDING[ending], "next_command": NEXT[next]})
+    }
+}
+
 pub fn build(quick: bool) -> Check {
     let cs = cases(quick);
     let n = cs.len();
     Check {
         id: "C04",
         level: "model_checking",
-        rule: format!("{} large-message scenarios on the real run_on: logical messages of k*(2^24-1)+d bytes (k in {{1{}}}, d in [-6,6]) as a one-cell text row and as a binary row; two-cell rows with the packet limit falling -1..4 bytes into the second cell (inside its 3-byte length prefix, exactly between the cells, in its data); a one-byte cell straddling the limit; three cells each far below the limit; rows of ~70000 / ~16000 small cells (239..241, 1021 bytes; more sizes in thorough) so that the limit falls at varying offsets of a cell; ERR messages and a column name beyond 2^24 bytes; column names of 2^24-35..2^24-19 bytes (thorough 2^24-61..2^24+5) so that the definition's payload passes the packet limit at every offset; exact multiples as the last, never explicitly ended row (finish / drop); exact multiples requested with sequence ids 249..252 (thorough 244..255) so that the packets of the message straddle the wrap of the id counter; each under whole, 1 MiB and 65537-byte transport writes; two-packet messages again with one transient deviation (Interrupted once, a write accepting 1 byte / half) at each large transport write; followed by a small row and a sentinel PING. Plus every cell length 0..70000, and cells of 2^15..2^20+1 bytes alone and after 270 / 1500 small rows. Oracle: every header length equals the bytes that follow; the message is cut into floor(L/(2^24-1)) maximal packets plus one shorter (possibly empty) packet; consecutive sequence ids; strict decode returns exactly the bytes written. Non-trivial = message of at least 2^24-1 bytes.", n, ",2"),
+        rule: format!("{} large-message scenarios on the real run_on: logical messages of k*(2^24-1)+d bytes (k in {{1{}}}, d in [-6,6]) as a one-cell text row and as a binary row; two-cell rows with the packet limit falling -1..4 bytes into the second cell (inside its 3-byte length prefix, exactly between the cells, in its data); a one-byte cell straddling the limit; three cells each far below the limit; rows of ~70000 / ~16000 small cells (239..241, 1021 bytes; more sizes in thorough) so that the limit falls at varying offsets of a cell; ERR messages and a column name beyond 2^24 bytes; column names of 2^24-35..2^24-19 bytes (thorough 2^24-61..2^24+5) so that the definition's payload passes the packet limit at every offset; exact multiples as the last, never explicitly ended row (finish / drop); exact multiples requested with sequence ids 249..252 (thorough 244..255) so that the packets of the message straddle the wrap of the id counter; each under whole, 1 MiB and 65537-byte transport writes; two-packet messages again with one transient deviation (Interrupted once, a write accepting 1 byte / half) at each large transport write; followed by a small row and a sentinel PING. Plus every cell length 0..70000, and cells of 2^15..2^20+1 bytes alone and after 270 / 1500 small rows. Large messages in context: a row of 2 MiB / 2^24-1 (+-1, x2) bytes, text and binary, preceded in its resultset by nothing / 2 / 5 short rows / a 5000-byte row, its response ended by EOF / a trailing completion / an error / a second resultset, the next command answered by PING's OK / an OK / a short resultset / an ERR (all 64 combinations per size; the packetisation rule is checked on every message of the stream). Oracle: every header length equals the bytes that follow; the message is cut into floor(L/(2^24-1)) maximal packets plus one shorter (possibly empty) packet; consecutive sequence ids; strict decode returns exactly the bytes written. Non-trivial = message of at least 2^24-1 bytes.", n, ",2"),
         assumptions: vec!["message sizes are explored in a window around the packet limit, not exhaustively between 70000 and 2^24-7".into()],
         bounds: json!({"k": 2, "d_window": 6, "scenarios": n}),
         exhaustive: true,
         caps_hit: vec![],
-        families: vec![Box::new(Big { cases: cs }), Box::new(Transient::new(quick)), Box::new(Small), Box::new(MidSizes)],
-        required: vec!["transient_deviations", "multi_packet_messages", "empty_closing_packets", "mid_size_cells"],
+        families: vec![
+            Box::new(Big { cases: cs }),
+            Box::new(Transient::new(quick)),
+            Box::new(Small),
+            Box::new(MidSizes),
+            Box::new(LargeInContext {
+                bigs: if quick { vec![(false, 2 << 20), (false, MAXP), (true, MAXP + 1)] } else { vec![(false, 2 << 20), (false, MAXP - 1), (false, MAXP), (false, MAXP + 1), (false, 2 * MAXP), (true, 2 << 20), (true, MAXP - 1), (true, MAXP), (true, MAXP + 1)] },
+            }),
+        ],
+        required: vec!["large_in_context", "transient_deviations", "multi_packet_messages", "empty_closing_packets", "mid_size_cells"],
     }
 }
